@@ -40,6 +40,7 @@ def make_job(method, st, noise, opts, d):
                 rep.add(f'{name}[{noise},d={d}]/rejected', 'raises', 'discharged', 'pyvc-exec', note='constructor raised ValueError')
                 return
             raise
+        C.queries_ok(S, rep, f'{name}[{noise},d={d}]')
         spec = C.TaylorSpec(S, 0)
         proved = Fraction(0)
         for p in CANDIDATES:
